@@ -76,7 +76,7 @@ func C05(tier string) int {
 		Prop: "C05", Level: "model_checking", Budget: budget,
 		Families:    c05Families(d),
 		Relabel:     map[string]string{"C01": "C05", "C02": "C05"},
-		RelabelOnly: map[string][]string{"C02": {"removed-message-visible", "message-missing"}},
+		RelabelOnly: map[string][]string{"C02": {"removed-message-visible", "message-missing", "+"}},
 		Assume: []string{
 			"bounded: <=3 sessions, 2 mailboxes, 3 initial messages, depth as reported per family",
 			"'held-back removals' are read from the session's responder queue through the verif dump hook; the converse of the EXPUNGEISSUED clause is not judged",
